@@ -267,20 +267,23 @@ def decide(spec, group, tier, seed, replay=None):
             # the templates live in headers and are compiled with the caller's flags: a caller that defines NDEBUG gets the same
             # answers (an assert whose expression has a side effect would not)
             if not replay and not spec.get('no_ndebug_check'):
+              # (also: the caller's language standard.  The headers may test __cplusplus; a caller compiled as C++20 gets the same answers)
+              for vname, vflags in (('-DNDEBUG', ('-DNDEBUG',)), ('-std=gnu++20', ('-std=gnu++20',))):
                 exe_nd, err_nd, t_nd = core.build_harness(scr, group['name'], group['sources'], group.get('repo_sources', ()),
-                                                          tuple(group.get('flags', ())) + ('-DNDEBUG',), group.get('libs', ('-lgmpxx', '-lgmp')))
+                                                          tuple(group.get('flags', ())) + vflags, group.get('libs', ('-lgmpxx', '-lgmp')))
                 if exe_nd is None:
-                    broken.append('harness %s does not compile with -DNDEBUG: %s' % (group['name'], (err_nd or '')[-600:]))
+                    broken.append('harness %s does not compile with %s: %s' % (group['name'], vname, (err_nd or '')[-600:]))
                 else:
-                    t0 = time.time(); iout_nd = core.run_lines([exe_nd], lines); icanon = spec.get('impl_canon')
+                    t0 = time.time(); iout_nd = core.run_lines([exe_nd], lines); icanon = spec.get('impl_canon'); nfail = 0
                     for i, l in enumerate(lines):
                         o2 = iout_nd[i] if i < len(iout_nd) else 'err no-output'
                         if icanon: o2 = icanon(o2, l)
                         if canon(o2) != canon(impl_out.get(i, '')) and not known_match(known, pid, l):
-                            ndebug_fails.append({'line': l, 'assertions_enabled': impl_out.get(i, ''), 'NDEBUG': o2})
-                            orc_fails.append((i, 'the answer depends on whether the caller defines NDEBUG: with assertions %s, with -DNDEBUG %s' % (impl_out.get(i, '')[:120], o2[:120])))
-                            if len(ndebug_fails) >= 3: break
-                    notes.append('NDEBUG pass: %d lines re-run on a harness built with -DNDEBUG in %.1fs (build %.1fs), %d differ' % (len(lines), time.time() - t0, t_nd, len(ndebug_fails)))
+                            ndebug_fails.append({'line': l, 'flags': list(vflags), 'assertions_enabled': impl_out.get(i, ''), 'NDEBUG': o2})
+                            orc_fails.append((i, 'the answer depends on the caller\'s %s: without it %s, with it %s' % (vname, impl_out.get(i, '')[:120], o2[:120])))
+                            nfail += 1
+                            if nfail >= 3: break
+                    notes.append('%s pass: %d lines re-run on a harness built with %s in %.1fs (build %.1fs), %d differ' % ('NDEBUG' if vname == '-DNDEBUG' else 'C++20', len(lines), vname, time.time() - t0, t_nd, nfail))
 
             # ---- 2d. independence of the calling thread ------------------------------------------------
             # every line again, each on a thread of its own inside a fresh harness process (started and joined per line: nothing
@@ -347,15 +350,18 @@ def decide(spec, group, tier, seed, replay=None):
     if replay and rj.get('ndebug_dependence'):
         with core.Scratch() as scr:
             e1, _, _ = core.build_harness(scr, group['name'], group['sources'], group.get('repo_sources', ()), group.get('flags', ()), group.get('libs', ('-lgmpxx', '-lgmp')))
-            e2, _, _ = core.build_harness(scr, group['name'], group['sources'], group.get('repo_sources', ()), tuple(group.get('flags', ())) + ('-DNDEBUG',), group.get('libs', ('-lgmpxx', '-lgmp')))
-            if e1 and e2:
+            builds = {}
+            for x in rj['ndebug_dependence']:
+                fl = tuple(x.get('flags') or ['-DNDEBUG'])
+                if fl not in builds: builds[fl] = core.build_harness(scr, group['name'], group['sources'], group.get('repo_sources', ()), tuple(group.get('flags', ())) + fl, group.get('libs', ('-lgmpxx', '-lgmp')))[0]
+            if e1 and all(builds.values()):
                 nl = [x['line'] for x in rj['ndebug_dependence']]; icanon = spec.get('impl_canon')
-                o1, o2 = core.run_lines([e1], nl), core.run_lines([e2], nl)
+                o1 = core.run_lines([e1], nl); o2 = [core.run_lines([builds[tuple(x.get('flags') or ['-DNDEBUG'])]], [x['line']])[0] for x in rj['ndebug_dependence']]
                 for l, a, b in zip(nl, o1, o2):
                     if icanon: a, b = icanon(a, l), icanon(b, l)
                     if canon(a) != canon(b):
                         cases.append(Case(l, 'orc', 'ndebug')); impl_out[len(cases) - 1] = b
-                        orc_fails.append((len(cases) - 1, 'the answer depends on whether the caller defines NDEBUG: %s vs %s' % (a[:120], b[:120])))
+                        orc_fails.append((len(cases) - 1, 'the answer depends on the flags the caller is compiled with (-DNDEBUG / -std=gnu++20): %s vs %s' % (a[:120], b[:120])))
     if replay and rj.get('thread_dependence'):
         with core.Scratch() as scr:
             e1, _, _ = core.build_harness(scr, group['name'], group['sources'], group.get('repo_sources', ()), group.get('flags', ()), group.get('libs', ('-lgmpxx', '-lgmp')))
